@@ -227,6 +227,25 @@ define_value_types! {
     Float64 => f64, Float64;
 }
 
+/// Return the number of elements in a tensor with the given shape, or `None`
+/// if the shape cannot be represented.
+///
+/// A shape read from a file is rejected if the product of its non-zero
+/// dimensions overflows, even when a zero-sized dimension makes the element
+/// count zero, because tensor layouts multiply dimension sizes to compute
+/// strides.
+#[cfg(any(feature = "npy", feature = "npz", feature = "safetensors"))]
+pub(crate) fn checked_element_count(shape: &[usize]) -> Option<usize> {
+    let non_zero_product = shape
+        .iter()
+        .try_fold(1usize, |acc, &dim| acc.checked_mul(dim.max(1)))?;
+    Some(if shape.contains(&0) {
+        0
+    } else {
+        non_zero_product
+    })
+}
+
 /// Evaluate `$body` with `$T` bound to the Rust element type corresponding to a
 /// runtime [`DataType`].
 #[cfg(any(feature = "npy", feature = "npz", feature = "safetensors"))]
